@@ -385,6 +385,90 @@ FLOORS = {
                  'counters': _T_COUNTERS},
 }
 
+# irregular-blanks class (headings / trailers whose blanks between the items are runs of spaces / tabs): about half of
+# the minimum over quick seeds 0-3 / thorough seed 0 on the unchanged tree.  ws:slot:* / ws:run:* / ws:position:* count
+# what was generated and executed, ws:normalform:* what was judged; ws:accepted-silently:<slot> and ws:normalform:<slot>
+# are floored only for the slots the unchanged tree accepts without a warning (before-semi, pkg-paren, urg-before-eq,
+# pair-before-eq and mail-date spellings are reported by the parser and only have the generation floor); the counters
+# ws:warned:*, ws:output-equals-input / -differs-from-input, ws:unformattable are the library's choice: never floored.
+# A run that never exercises the class is inconclusive.
+_WS_Q = {
+    'ws:accepted-silently': 1900, 'ws:accepted-silently:after-comma': 36, 'ws:accepted-silently:after-dashes': 62,
+    'ws:accepted-silently:after-semi': 51, 'ws:accepted-silently:before-comma': 37,
+    'ws:accepted-silently:dist-dist': 63, 'ws:accepted-silently:dow-day': 35, 'ws:accepted-silently:h-trailing': 59,
+    'ws:accepted-silently:in-comment': 36, 'ws:accepted-silently:in-date': 56, 'ws:accepted-silently:in-mail': 35,
+    'ws:accepted-silently:in-name': 60, 'ws:accepted-silently:in-value': 37, 'ws:accepted-silently:name-mail': 69,
+    'ws:accepted-silently:pair-after-eq': 37, 'ws:accepted-silently:paren-dist': 57,
+    'ws:accepted-silently:t-trailing': 61, 'ws:accepted-silently:urg-after-eq': 57,
+    'ws:accepted-silently:urg-comment': 33, 'ws:hist': 650, 'ws:hist:final-format': 610,
+    'ws:hist:final-format-after-mid-format-and-edit': 420, 'ws:hist:final-format-after-older-block-edit': 310,
+    'ws:normalform': 2500, 'ws:normalform-accepted-silently-run:2-spaces': 300,
+    'ws:normalform-accepted-silently-run:3-spaces': 350, 'ws:normalform-accepted-silently-run:4-spaces': 300,
+    'ws:normalform-accepted-silently-run:7-spaces': 280, 'ws:normalform-accepted-silently-run:mixed': 1100,
+    'ws:normalform-accepted-silently-run:spaces': 540, 'ws:normalform-accepted-silently-run:tab': 190,
+    'ws:normalform-accepted-silently-run:tabs': 220, 'ws:normalform-accepted-silently-run:unicode-blank': 240,
+    'ws:normalform-on-2+-blocks': 1300, 'ws:normalform:after-comma': 310, 'ws:normalform:after-dashes': 140,
+    'ws:normalform:after-semi': 350, 'ws:normalform:before-comma': 330, 'ws:normalform:dist-dist': 360,
+    'ws:normalform:dow-day': 350, 'ws:normalform:h-trailing': 340, 'ws:normalform:in-comment': 310,
+    'ws:normalform:in-date': 360, 'ws:normalform:in-mail': 330, 'ws:normalform:in-name': 370,
+    'ws:normalform:in-value': 320, 'ws:normalform:name-mail': 370, 'ws:normalform:pair-after-eq': 330,
+    'ws:normalform:paren-dist': 340, 'ws:normalform:t-trailing': 360, 'ws:normalform:urg-after-eq': 350,
+    'ws:normalform:urg-comment': 330, 'ws:position:first-of-2': 170, 'ws:position:last-of-2': 170,
+    'ws:position:middle-of-3': 170, 'ws:position:only': 510, 'ws:position:random-first': 1000,
+    'ws:position:random-later': 320, 'ws:position:random-mutated': 150, 'ws:run:2-spaces': 420,
+    'ws:run:3-spaces': 520, 'ws:run:4-spaces': 430, 'ws:run:7-spaces': 410, 'ws:run:mixed': 1600,
+    'ws:run:spaces': 780, 'ws:run:tab': 300, 'ws:run:tabs': 360, 'ws:run:unicode-blank': 370,
+    'ws:slot:after-comma': 320, 'ws:slot:after-dashes': 140, 'ws:slot:after-semi': 360, 'ws:slot:before-comma': 340,
+    'ws:slot:before-semi': 120, 'ws:slot:dist-dist': 370, 'ws:slot:dow-day': 350, 'ws:slot:h-trailing': 350,
+    'ws:slot:in-comment': 320, 'ws:slot:in-date': 360, 'ws:slot:in-mail': 340, 'ws:slot:in-name': 380,
+    'ws:slot:in-value': 330, 'ws:slot:mail-date': 120, 'ws:slot:name-mail': 380, 'ws:slot:pair-after-eq': 340,
+    'ws:slot:pair-before-eq': 100, 'ws:slot:paren-dist': 340, 'ws:slot:pkg-paren': 150, 'ws:slot:t-trailing': 370,
+    'ws:slot:urg-after-eq': 350, 'ws:slot:urg-before-eq': 120, 'ws:slot:urg-comment': 340,
+    'ws:strict-object-normalform': 1900, 'ws:texts': 2600,
+}
+_WS_T = {
+    'ws:accepted-silently': 58000, 'ws:accepted-silently:after-comma': 930, 'ws:accepted-silently:after-dashes': 360,
+    'ws:accepted-silently:after-semi': 1000, 'ws:accepted-silently:before-comma': 940,
+    'ws:accepted-silently:dist-dist': 1000,
+    'ws:accepted-silently:dow-day': 950, 'ws:accepted-silently:h-trailing': 990,
+    'ws:accepted-silently:in-comment': 990, 'ws:accepted-silently:in-date': 1000, 'ws:accepted-silently:in-mail': 970,
+    'ws:accepted-silently:in-name': 1000, 'ws:accepted-silently:in-value': 960,
+    'ws:accepted-silently:name-mail': 880, 'ws:accepted-silently:pair-after-eq': 950,
+    'ws:accepted-silently:paren-dist': 990,
+    'ws:accepted-silently:t-trailing': 990, 'ws:accepted-silently:urg-after-eq': 1000,
+    'ws:accepted-silently:urg-comment': 990, 'ws:hist': 12000, 'ws:hist:final-format': 12000,
+    'ws:hist:final-format-after-mid-format-and-edit': 12000, 'ws:hist:final-format-after-older-block-edit': 7300,
+    'ws:normalform': 78000, 'ws:normalform-accepted-silently-run:2-spaces': 12000,
+    'ws:normalform-accepted-silently-run:3-spaces': 15000, 'ws:normalform-accepted-silently-run:4-spaces': 12000,
+    'ws:normalform-accepted-silently-run:7-spaces': 11000, 'ws:normalform-accepted-silently-run:mixed': 40000,
+    'ws:normalform-accepted-silently-run:spaces': 26000, 'ws:normalform-accepted-silently-run:tab': 7600,
+    'ws:normalform-accepted-silently-run:tabs': 9800, 'ws:normalform-accepted-silently-run:unicode-blank': 12000,
+    'ws:normalform-on-2+-blocks': 43000, 'ws:normalform:after-comma': 12000, 'ws:normalform:after-dashes': 4200,
+    'ws:normalform:after-semi': 12000, 'ws:normalform:before-comma': 12000,
+    'ws:normalform:dist-dist': 12000, 'ws:normalform:dow-day': 12000, 'ws:normalform:h-trailing': 12000,
+    'ws:normalform:in-comment': 12000, 'ws:normalform:in-date': 12000, 'ws:normalform:in-mail': 12000,
+    'ws:normalform:in-name': 12000, 'ws:normalform:in-value': 12000,
+    'ws:normalform:name-mail': 12000, 'ws:normalform:pair-after-eq': 12000,
+    'ws:normalform:paren-dist': 12000, 'ws:normalform:t-trailing': 12000, 'ws:normalform:urg-after-eq': 12000,
+    'ws:normalform:urg-comment': 12000, 'ws:position:first-of-2': 510, 'ws:position:last-of-2': 510,
+    'ws:position:middle-of-3': 510, 'ws:position:only': 510, 'ws:position:random-first': 55000,
+    'ws:position:random-later': 16000, 'ws:position:random-mutated': 7800, 'ws:run:2-spaces': 18000,
+    'ws:run:3-spaces': 23000, 'ws:run:4-spaces': 18000, 'ws:run:7-spaces': 17000, 'ws:run:mixed': 59000,
+    'ws:run:spaces': 38000, 'ws:run:tab': 11000, 'ws:run:tabs': 15000, 'ws:run:unicode-blank': 19000,
+    'ws:slot:after-comma': 12000, 'ws:slot:after-dashes': 4400, 'ws:slot:after-semi': 12000,
+    'ws:slot:before-comma': 12000, 'ws:slot:before-semi': 4400, 'ws:slot:dist-dist': 12000, 'ws:slot:dow-day': 12000,
+    'ws:slot:h-trailing': 12000, 'ws:slot:in-comment': 12000, 'ws:slot:in-date': 12000, 'ws:slot:in-mail': 12000,
+    'ws:slot:in-name': 12000, 'ws:slot:in-value': 12000, 'ws:slot:mail-date': 4300, 'ws:slot:name-mail': 12000,
+    'ws:slot:pair-after-eq': 12000, 'ws:slot:pair-before-eq': 4300, 'ws:slot:paren-dist': 12000,
+    'ws:slot:pkg-paren': 4400, 'ws:slot:t-trailing': 12000, 'ws:slot:urg-after-eq': 12000,
+    'ws:slot:urg-before-eq': 4500, 'ws:slot:urg-comment': 12000, 'ws:strict-object-normalform': 58000,
+    'ws:texts': 82000,
+}
+_Q_COUNTERS.update(_WS_Q)
+_T_COUNTERS.update(_WS_T)
+FLOORS['quick']['monitors']['M.normalform-strict'] = 1900
+FLOORS['thorough']['monitors']['M.normalform-strict'] = 58000
+
 FIXTURES = ['test_changelog', 'test_changelog_unicode', 'test_strange_changelog', 'test_changelog_full_stops',
             'test_modify_changelog1', 'test_modify_changelog2', 'test_modify_changelog3']
 
